@@ -71,6 +71,12 @@ impl<K, V> KMap<K, V> {
     { unimplemented!() }
     #[verifier::external_body]
     fn is_empty(&self) -> (r: bool) ensures r == (self@.dom() =~= Set::<K>::empty()) { unimplemented!() }
+    #[verifier::external_body]
+    fn len(&self) -> (r: usize) ensures (r == 0) == (self@.dom() =~= Set::<K>::empty()) { unimplemented!() }
+    #[verifier::external_body]
+    fn get(&self, k: &K) -> (r: Option<&V>)
+        ensures (r matches Some(v) ==> self@.contains_key(*k) && *v == self@[*k]), (r is None ==> !self@.contains_key(*k)),
+    { unimplemented!() }
     // HashMap::drain(): every entry once, in an arbitrary order; the map is left empty
     #[verifier::external_body]
     fn drain_all(&mut self) -> (r: Vec<(K, V)>)
@@ -386,13 +392,14 @@ def build(x):
     nx.text = '#[verifier::exec_allows_no_decreases_clause]\n' + nx.text
     entry_and_modify_or_insert(nx)
     extend_drain_map(nx)
-    nx.bind('timestamps', r'let (\w+)(?:\s*:[^=]*)? = &mut self\.timestamps;')
+    nx.deref_patterns()
+    nx.bind('timestamps', r'let (\w+)(?:\s*:[^=]*)? = &(?:mut )?self\.timestamps;')
     nx.insert_before('while !self.received_end', 'proof { assert(Self::pulled(old(self), self) =~= Seq::<StreamElement<Op::Out>>::empty()); if !old(self).received_end { assert(self.view() == Self::empty_state()); } }\n        ')
+    nx.insert_after_loop(1, '\n        let ghost D = self.view(); let ghost r0 = self.ready@; let ghost hP = self.prev.hist();\n        proof { if self.accumulators@.dom() =~= Set::empty() { assert(self.timestamps@ =~= Map::empty()); assert(self.accumulators@ =~= Map::empty()); if !old(self).received_end { assert(Self::is_results(D, self.ready@)); } } }\n        ')
     nx.add_loop_spec(1, LOOP1)
     nx.insert_before('match self.prev.next() {', 'let ghost h0 = self.prev.hist();\n            ')
     nx.sub('V-SPEC', r'match self\.prev\.next\(\) \{', 'let __e = self.prev.next();\n            proof { let k = old(self).prev.hist().len() as int; assert(self.prev.hist().skip(k) =~= h0.skip(k).push(__e)); Self::lemma_run_push(self.init, Self::empty_state(), h0.skip(k), __e); assert(h0.skip(k).push(__e).drop_last() =~= h0.skip(k)); }\n            match __e {',
            detail='scrutinee bound to a ghost-visible name `__e`', must=True)
-    nx.insert_before(re.compile(r'if [^{;]*self\.accumulators\b[^{;]*\{'), 'let ghost D = self.view(); let ghost r0 = self.ready@; let ghost hP = self.prev.hist();\n        proof { if self.accumulators@.dom() =~= Set::empty() { assert(self.timestamps@ =~= Map::empty()); assert(self.accumulators@ =~= Map::empty()); if !old(self).received_end { assert(Self::is_results(D, self.ready@)); } } }\n        ')
     nx.insert_after('/*@drained*/', ' let ghost d0 = __d@;')
     nx.add_loop_spec(2, LOOP2)
     nx.insert_after('/*@entry*/', ' let ghost g = d0.len() - __d@.len() - 1; proof { assert(d0.skip(g)[0] == d0[g]); assert(d0.skip(g).skip(1) =~= d0.skip(g + 1)); }')
